@@ -5,14 +5,14 @@ cd /verif
 out=seeded/RESULTS.txt
 : > $out
 for d in seeded/C*/; do
-  p=$(basename $d)
-  if ! git -C /repo apply --check /verif/$d/patch.diff 2>/dev/null; then echo "$p patch-does-not-apply" >> $out; continue; fi
+  p=$(basename $d | cut -d- -f1)
+  if ! git -C /repo apply --check /verif/$d/patch.diff 2>/dev/null; then echo "$(basename $d) patch-does-not-apply" >> $out; continue; fi
   git -C /repo apply /verif/$d/patch.diff
   r=$(bin/check $p 2>&1 | grep -E "VIOLATION|tier=" )
   git -C /repo checkout -- .
   nv=$(echo "$r" | grep -c "^VIOLATION")
   nf=$(echo "$r" | grep "^VIOLATION" | grep -vc "no-failing-input-found")
-  echo "$p violations=$nv with-failing-input=$nf :: $(echo "$r" | grep tier= | sed 's/.*: //')" >> $out
+  echo "$(basename $d) violations=$nv with-failing-input=$nf :: $(echo "$r" | grep tier= | sed 's/.*: //')" >> $out
   echo "$r" | grep -E "VIOLATION" | head -5 > $d/checks.txt
   echo "$r" | grep tier= >> $d/checks.txt
 done
